@@ -639,3 +639,98 @@ Print Assumptions C06_comment_kept_before_simple.
 Print Assumptions C06_lookup_at_touching_tokens.
 Print Assumptions C06_text_roundtrip.
 Print Assumptions C06_text_example.
+
+(* ---------- 6. the token-order hypothesis [tord], discharged for the lexer's output (Proofs/LexTord.v) ----------
+   A token's range is start .. start + number of characters of its VALUE, on the start line.  The value is never
+   longer than the chunk of text the token consumed, and a chunk that holds a line feed (multi-line literal) puts
+   every later token on a later line: each token ends at or before the next one starts, for EVERY text.
+   [twf] also wants a non-empty range of every non-literal token; the one token class without it is the EMPTY
+   COMMENT (a ';' directly followed by the end of the line: a comment's range covers the text after the ';'),
+   so [tord] holds exactly for the texts without one (C06_lexed_tokens_ordered_iff; C06_empty_comment_refuted).
+   A zero-width range on a ';' is not an identifier position (C06's clause is about the lookup at identifiers), so the
+   empty comment is a limit of the HYPOTHESIS [twf] as stated in RangeEnc.v, not a defect of the code. *)
+From GoldV Require Import LexTord.
+
+Theorem C06_lexed_tokens_ordered_all : forall text,
+  nonempty_comments (fst (lex text)) = true -> tord (fst (lex text)).
+Proof. exact lex_tord. Qed.
+
+Theorem C06_lexed_tokens_ordered_iff : forall text,
+  tord (fst (lex text)) <-> nonempty_comments (fst (lex text)) = true.
+Proof. exact lex_tord_iff. Qed.
+
+(* without any side condition: start <= end for every token of every text *)
+Theorem C06_lexed_ranges_wf : forall text, Forall (fun t => pos_le (tstart t) (tend t)) (fst (lex text)).
+Proof. exact lex_ranges_wf. Qed.
+
+(* "a ;" LF "b" : the comment's range is 0:2-0:2 *)
+Theorem C06_empty_comment_refuted : exists text, ~ tord (fst (lex text)).
+Proof. exact empty_comment_refuted. Qed.
+
+(* the rule before /repo f444e80 (range length = UTF-8 byte length of the value, [old_tokens]) breaks the order on
+   Foo('éééééé', xv): the literal's end, column 16, is past the comma (12) and the identifier xv (14), which is why
+   go-to-definition on xv answered nothing; with the rule the code has now the same text is ordered *)
+Theorem C06_old_token_end_in_bytes_refuted : exists text, ~ tord (old_tokens text) /\ tord (fst (lex text)).
+Proof. exact old_token_end_in_bytes_refuted. Qed.
+
+(* the enclosure theorems of section 4 for the tokens of a TEXT: whole files ... *)
+Theorem C06_text_encloses : forall text fuel ns,
+  nonempty_comments (fst (lex text)) = true -> Decls fuel (fst (lex text)) ns -> Forall enc_tree ns.
+Proof. exact text_encloses. Qed.
+
+(* ... and an expression anywhere in a text (ts: a contiguous part of the text's token list) *)
+Theorem C06_range_encloses_text : forall text a ts b f n,
+  nonempty_comments (fst (lex text)) = true -> fst (lex text) = a ++ ts ++ b -> GExpr f ts n ->
+  forall m c, subnode m n -> In c (nchildren m) -> encloses (nrange m) (nrange c).
+Proof. exact text_range_encloses. Qed.
+
+Theorem C06_innermost_is_ident_text : forall text a ts b f n,
+  nonempty_comments (fst (lex text)) = true -> fst (lex text) = a ++ ts ++ b -> GExpr f ts n ->
+  forall t, subnode (mk_terminal t) n -> forall p, contains (trange t) p = true -> search p n = mk_terminal t.
+Proof. exact text_innermost_is_ident. Qed.
+
+(* printed lexemes (C06_text_roundtrip): the side condition is one on the lexemes *)
+Theorem C06_unlex_tokens_ordered : forall lx,
+  forallb printable lx = true -> lx_nonempty_comments lx = true -> tord (fst (lex (unlex lx))).
+Proof. exact unlex_tord. Qed.
+
+(* non-vacuity: the hypotheses of C06_text_encloses hold of the text of C06_text_example, and of a text with a
+   comment, a two-line literal, a doubled quote, a non-ASCII literal and #digits *)
+Example C06_text_encloses_example :
+  let lx := [(TClass, [99;108;97;115;115]); (TIdentifier, [97;88]); (TProc, [112;114;111;99]); (TIdentifier, [80]);
+             (TWhile, [119;104;105;108;101]); (TIdentifier, [99]); (TIdentifier, [120]); (TEquals, [61]);
+             (TIdentifier, [121]); (TEndWhile, [101;110;100;119;104;105;108;101]); (TEndProc, [101;110;100;112;114;111;99])] in
+  nonempty_comments (fst (lex (unlex lx))) = true /\
+  exists ns, Decls 2 (fst (lex (unlex lx))) ns /\ length ns = 2%nat /\ Forall enc_tree ns.
+Proof.
+  cbv zeta. destruct C06_text_example as (_ & ns & Hd & Hl & _).
+  assert (nonempty_comments (fst (lex (unlex
+    [(TClass, [99;108;97;115;115]); (TIdentifier, [97;88]); (TProc, [112;114;111;99]); (TIdentifier, [80]);
+     (TWhile, [119;104;105;108;101]); (TIdentifier, [99]); (TIdentifier, [120]); (TEquals, [61]);
+     (TIdentifier, [121]); (TEndWhile, [101;110;100;119;104;105;108;101]); (TEndProc, [101;110;100;112;114;111;99])]))) = true) as Hc
+    by (vm_compute; reflexivity).
+  split; [exact Hc|]. exists ns. split; [exact Hd|]. split; [exact Hl|].
+  exact (C06_text_encloses _ 2 ns Hc Hd).
+Qed.
+
+(*  x = 'a LF b' + "c''d" + 'éé' ;k LF #12 y  *)
+Definition tord_text : list N :=
+  [120;32;61;32;39;97;10;98;39;32;43;32;34;99;39;39;100;34;32;43;32;39;233;233;39;32;59;107;10;35;49;50;32;121].
+Example C06_lexed_tokens_ordered_example :
+  nonempty_comments (txt tord_text) = true /\ length (txt tord_text) = 10%nat /\ tord (txt tord_text).
+Proof.
+  assert (nonempty_comments (txt tord_text) = true) as Hc by (vm_compute; reflexivity).
+  split; [exact Hc|]. split; [vm_compute; reflexivity|]. exact (C06_lexed_tokens_ordered_all tord_text Hc).
+Qed.
+
+Print Assumptions C06_lexed_tokens_ordered_all.
+Print Assumptions C06_lexed_tokens_ordered_iff.
+Print Assumptions C06_lexed_ranges_wf.
+Print Assumptions C06_empty_comment_refuted.
+Print Assumptions C06_old_token_end_in_bytes_refuted.
+Print Assumptions C06_text_encloses.
+Print Assumptions C06_range_encloses_text.
+Print Assumptions C06_innermost_is_ident_text.
+Print Assumptions C06_unlex_tokens_ordered.
+Print Assumptions C06_text_encloses_example.
+Print Assumptions C06_lexed_tokens_ordered_example.
